@@ -11,6 +11,7 @@
 //! `pdbv-pagesearch --worker <seed> <seconds> <max_cases>` is the entry used for layer 3.
 
 mod cases;
+mod dblayer;
 mod native;
 mod tools;
 mod rng {
@@ -40,7 +41,11 @@ AddressSanitizer build. distinct_nontrivial = distinct (ib, page kind, key kind,
 natively, outcome class in {absent, found_same, fast_earlier(than the exact match), fast_only, zero_word_found, \
 zero_word_absent}. Index sizes are restricted to 16..=48: at ib >= 50 the shift ib+14 reaches 64 bits in both paths \
 (degenerate, no such table can be created) and MIN_INDEX_BITS is 16. Start position 64 (what Column passes after a hit \
-in slot 63) is included. A Miri 'Undefined Behavior' report or an AddressSanitizer report is a violation; a tool that \
+in slot 63) is included. A fourth layer reaches the search the way every caller does (IndexTable::get and the candidate \
+loops above it), end to end through a real database: a uniform column with the all-zero salt (identity hash) whose one \
+64-slot page is filled completely with families of 1-4 keys agreeing on all 50 stored bits (the last two or three slots \
+included), every key read back at every pipeline stage, never-inserted keys sharing the stored bits of a present key (or \
+differing only in the two lowest / two highest bits of the partial key) read as absent. A Miri 'Undefined Behavior' report or an AddressSanitizer report is a violation; a tool that \
 cannot be built or times out makes the run inconclusive, never violated.";
 
 struct Plan {
@@ -94,6 +99,8 @@ fn spec_for(prop: &str, tier: Tier) -> Option<Spec> {
 		.require("ib_16_17", 1_000_000)
 		.require("miri_cases", tier.pick(2_400, 40_000))
 		.require("miri_children_ok", 8)
+		.require("db_layer_pages", tier.pick(100, 1500))
+		.require("db_layer_pages_with_family_in_last_slots", tier.pick(50, 700))
 		.budget(60, 840);
 	if tier == Tier::Thorough {
 		s = s.require("asan_cases", 1_000_000);
@@ -411,8 +418,14 @@ fn run_asan_layer(ctx: &Ctx, rep: &mut Report, pl: &Plan, token: &str) {
 	}
 }
 
-fn replay(_ctx: &Ctx, rep: &mut Report, j: &J) {
+fn replay(ctx: &Ctx, rep: &mut Report, j: &J) {
 	let layer = j.get("layer").and_then(|x| x.as_str()).unwrap_or("native").to_string();
+	if layer == "db" {
+		// the database layer is deterministic in (shard seed, round)
+		let round = j.get("round").and_then(|x| x.as_u64()).unwrap_or(0);
+		dblayer::run(ctx, rep, round + 1);
+		return
+	}
 	// a shard that died (SIGSEGV ...) leaves only the text of its mark
 	if let Some(case) = j.get("case").and_then(|x| x.as_str()) {
 		if let Some(rest) = case.strip_prefix("native_block ") {
@@ -598,6 +611,12 @@ fn shard(ctx: &Ctx, rep: &mut Report) {
 		rep.notes.push(format!("shard {} stopped its native layer after 20 failing cases", ctx.shard));
 	}
 	ctx.checkpoint(rep);
+
+	// ---- layer 1b: the search as its callers reach it, through a real database
+	if on("db") {
+		dblayer::run(ctx, rep, ctx.tier.pick(12, 150));
+		ctx.checkpoint(rep);
+	}
 
 	// ---- layer 2: Miri
 	if on("miri") {
